@@ -32,6 +32,7 @@ type Impl struct {
 	Peer     *replica.Server
 	PeerDir  string
 	rb       *rebuild
+	Base     string            // the directory the sequence started in
 	alias    map[string]string // name used on the line -> name the controller generated
 	cleanups []string
 }
@@ -343,7 +344,17 @@ func (im *Impl) Exec(line string) (out string) {
 	case "ckpt":
 		return res(im.S.SetCheckpoint(w[1]))
 	case "rbbegin":
-		return im.rbBegin(w[1], len(w) > 2 && w[2] == "real")
+		has := func(f string) bool {
+			for _, x := range w[2:] {
+				if x == f {
+					return true
+				}
+			}
+			return false
+		}
+		return im.rbBegin(w[1], has("real"), has("stale"))
+	case "stash":
+		return im.stash()
 	case "rbreload":
 		return im.rbReload()
 	case "lunmap":
